@@ -2,7 +2,7 @@
 from ..core import hx
 from . import _scn
 ID = "C07"
-PROPS = ["F1Verif.Props.C07", "F1Verif.Props.FactsC07", "F1Verif.Props.RefineC07", "F1Verif.Props.RefineC17Run"]
+PROPS = ["F1Verif.Props.C07", "F1Verif.Props.FactsC07", "F1Verif.Props.RefineC07", "F1Verif.Props.RefineC17Run", "F1Verif.Props.RefineC06T"]
 ALSO = ["F1Verif.Props.Handle"]
 RULE = ("engine A (component level): per-worker behaviour sequences over the alphabet pass / Fail / Error(f) / FailNow / "
         "Fatal(f) / failed assertion / panic with error, string, arbitrary value, runtime error (nil-map write) and nil, "
